@@ -65,11 +65,20 @@ def ob_rtree_header_bounds(ctx, res):
     parts = emissions(fn.body, recv_is_param0(fn))
     segs = split_structure(parts)
     alts = [s[1] for s in segs if s[0] == "alt"]
-    if len(alts) != 1 or len(alts[0].parts) != 2:
-        res.fail("cirHeader/bounds-shape", fn, "expected one two-arm alternative writing the 4 header bounds")
+    if len(alts) != 1 or len(alts[0].parts) not in (2, 3):
+        res.fail("cirHeader/bounds-shape", fn, "expected one alternative (leaf root / inner root [/ empty index]) writing the 4 header bounds")
         return
-    for br in alts[0].parts:
+    for br, arm in zip(alts[0].parts, alts[0].node["arms"]):
         ems = flat_emits(br.parts)
+        g = arm.get("guard")
+        if g is not None:
+            # the only accepted guarded arm: an empty leaf root with all-zero bounds
+            from ..astq import strip_cast
+            if up(strip(g)).endswith(".is_empty()") and len(ems) == 4 and all(e.arg is not None and up(strip_cast(e.arg)) == "0" for e in ems):
+                res.ok(br.node, "empty index (no sections): zero bounds")
+            else:
+                res.fail("cirHeader/guarded-arm", br.node, "guarded bounds arm `%s` not recognised" % up(arm["pat"]))
+            continue
         if len(ems) != 4:
             res.fail("cirHeader/bounds-count", br.node, "expected 4 bounds, found %d" % len(ems))
             continue
